@@ -100,6 +100,12 @@ type Mem struct {
 	trace   []Call
 	nTx     int
 	cancel  func()
+	// optional SQL side (see sqlfake.go)
+	sys    map[string]*sysRow
+	sqldb  *sql.DB
+	bun    *bun.DB
+	sqlLog []string
+	openTx *Store // innermost open transaction handle
 }
 
 func New() *Mem {
@@ -118,16 +124,26 @@ func (m *Mem) state(name string) *ledgerState {
 }
 
 func (m *Mem) NewStore(l ledger.Ledger) ledgercontroller.Store {
+	m.registerLedger(l)
 	return &Store{m: m, ls: m.state(l.Name), l: l, name: "root"}
 }
-func (m *Mem) InjectFault(f Fault)      { m.fault = &f; m.calls = 0; m.fired = false }
-func (m *Mem) ClearFault()              { m.fault = nil; m.calls = 0 }
-func (m *Mem) FaultFired() bool         { return m.fired }
-func (m *Mem) Trace() []Call            { return append([]Call(nil), m.trace...) }
-func (m *Mem) ResetTrace()              { m.trace = nil }
-func (m *Mem) SetNow(t libtime.Time)    { m.now = t }
-func (m *Mem) SetCancel(cancel func())  { m.cancel = cancel }
-func (m *Mem) ResyncSequences(n string) { ls := m.state(n); ls.sq.Tx, ls.sq.Log = ls.data.maxIDs() }
+func (m *Mem) InjectFault(f Fault)     { m.fault = &f; m.calls = 0; m.fired = false }
+func (m *Mem) ClearFault()             { m.fault = nil; m.calls = 0 }
+func (m *Mem) FaultFired() bool        { return m.fired }
+func (m *Mem) Trace() []Call           { return append([]Call(nil), m.trace...) }
+func (m *Mem) ResetTrace()             { m.trace = nil }
+func (m *Mem) SetNow(t libtime.Time)   { m.now = t }
+func (m *Mem) SetCancel(cancel func()) { m.cancel = cancel }
+func (m *Mem) ResyncSequences(n string) {
+	ls := m.state(n)
+	tx, lg := ls.data.maxIDs()
+	if len(ls.data.Txs) > 0 {
+		ls.sq.Tx = tx
+	}
+	if len(ls.data.Logs) > 0 {
+		ls.sq.Log = lg
+	}
+}
 func (m *Mem) Sequences(n string) (uint64, uint64) {
 	ls := m.state(n)
 	return ls.sq.Tx, ls.sq.Log
@@ -153,6 +169,7 @@ type Store struct {
 	depth  int
 	done   bool
 	nSave  int
+	btx    *bun.Tx // the SQL transaction / savepoint behind this handle (EnableSQL only)
 }
 
 var _ ledgercontroller.Store = (*Store)(nil)
@@ -294,7 +311,42 @@ func (s *Store) BeginTX(ctx context.Context, _ *sql.TxOptions) (ledgercontroller
 		child.name = fmt.Sprintf("tx%d", s.m.nTx)
 		child.phys = &physTx{}
 	}
-	return child, nil, nil
+	if s.m.bun != nil {
+		var (
+			btx bun.Tx
+			err error
+		)
+		if s.isTx() && s.btx != nil {
+			btx, err = s.btx.BeginTx(ctx, nil)
+		} else {
+			btx, err = s.m.bun.BeginTx(ctx, nil)
+		}
+		if err != nil {
+			return nil, nil, s.fail(idx, err)
+		}
+		child.btx = &btx
+	}
+	s.m.openTx = child
+	return child, child.btx, nil
+}
+
+// closeSQL ends the SQL transaction / savepoint behind a finished handle.
+func (s *Store) closeSQL(commit bool) {
+	if s.m.openTx == s {
+		if s.parent != nil && s.parent.isTx() {
+			s.m.openTx = s.parent
+		} else {
+			s.m.openTx = nil
+		}
+	}
+	if s.btx == nil {
+		return
+	}
+	if commit {
+		_ = s.btx.Commit()
+	} else {
+		_ = s.btx.Rollback()
+	}
 }
 
 func (s *Store) Commit(ctx context.Context) error {
@@ -307,6 +359,7 @@ func (s *Store) Commit(ctx context.Context) error {
 		return set(errors.New("cannot commit transaction: not in a transaction"))
 	}
 	if s.done || s.phys.dead {
+		s.closeSQL(false)
 		return set(sql.ErrTxDone)
 	}
 	injected := m.fault != nil && !m.fired &&
@@ -314,6 +367,7 @@ func (s *Store) Commit(ctx context.Context) error {
 	if injected {
 		m.fired = true
 		s.done = true
+		s.closeSQL(false)
 		if s.depth == 0 {
 			s.phys.dead = true
 		} else {
@@ -339,6 +393,7 @@ func (s *Store) Commit(ctx context.Context) error {
 		if s.depth == 0 {
 			s.phys.dead = true
 		}
+		s.closeSQL(false)
 		return set(errCommitRollback)
 	}
 	if s.depth == 0 {
@@ -347,6 +402,7 @@ func (s *Store) Commit(ctx context.Context) error {
 	} else {
 		s.parent.data = s.data // RELEASE SAVEPOINT
 	}
+	s.closeSQL(true)
 	return nil
 }
 
@@ -360,6 +416,7 @@ func (s *Store) Rollback(ctx context.Context) error {
 		return set(errors.New("cannot rollback transaction: not in a transaction"))
 	}
 	if s.done || s.phys.dead {
+		s.closeSQL(false)
 		return set(sql.ErrTxDone)
 	}
 	s.done = true
@@ -368,6 +425,7 @@ func (s *Store) Rollback(ctx context.Context) error {
 	} else if s.phys.aborted && s.phys.abortedDepth >= s.depth {
 		s.phys.aborted = false // ROLLBACK TO SAVEPOINT
 	}
+	s.closeSQL(false)
 	if m.fault != nil && !m.fired && m.fault.Kind != FaultCommit && m.calls == m.fault.At {
 		// a failing ROLLBACK cannot make anything durable: the work is discarded anyway
 		m.fired = true
@@ -391,7 +449,13 @@ func (s *Store) LockLedger(ctx context.Context) (ledgercontroller.Store, bun.IDB
 	if err != nil {
 		return nil, nil, nil, s.fail(idx, err)
 	}
-	return s, nil, func() error { return nil }, nil
+	var idb bun.IDB
+	if s.btx != nil {
+		idb = *s.btx
+	} else if s.m.bun != nil {
+		idb = s.m.bun
+	}
+	return s, idb, func() error { return nil }, nil
 }
 
 // ---- statements ----------------------------------------------------------------
